@@ -247,7 +247,7 @@ class Unit:
            ctx_ok_or=(), external_body=False, props=None, safety_props=None, which=0,
            canary=False, rename=None, mode_exec=True, opens_invariants=None, no_unwind=False,
            sig_rewrites=(), header_attrs=(), assume_termination=False, container=None, bare=False,
-           no_body=False, ctx_sites=(), impl_which=0, synth=None, tail_proof=None, proof_label=None, transform=None, head_proof=None, opt_rewrites=()):
+           no_body=False, ctx_sites=(), impl_which=0, synth=None, tail_proof=None, proof_label=None, transform=None, head_proof=None, opt_rewrites=(), asserts=()):
         """cut a function from /repo and splice a contract in.
 
         key: 'Type::name' or 'name'.  impl: regex of the impl header type (default = Type from key).
@@ -390,6 +390,31 @@ class Unit:
                 raise CutError(f'{relpath}: fn {key}: proof anchor /{pat}/ no longer matches')
             ls = body.rfind('\n', 0, m.start()) + 1
             inserts.append((ls, text.rstrip('\n') + '\n'))
+        # labelled ghost assertions (each is an obligation of its own): (where, Clause[, ghost prelude]) with
+        # where = ('before', regex) | ('after', regex) | ('loop_start', k) | ('loop_end', k) | ('tail',)
+        for a in asserts:
+            where, c = a[0], a[1]
+            pre = a[2] if len(a) > 2 else ''
+            txt = '\n' + reg('assert', c).replace(f'        {c.text},', f'        proof {{ {pre} assert({c.text}); }}')
+            if where[0] in ('before', 'after'):
+                mask = code_mask(body)
+                m = re.search(where[1], mask, re.M)
+                if not m:
+                    raise CutError(f'{relpath}: fn {key}: assertion anchor /{where[1]}/ no longer matches')
+                if where[0] == 'before':
+                    inserts.append((body.rfind('\n', 0, m.start()) + 1, txt.lstrip('\n')))
+                else:
+                    inserts.append((m.end(), txt))
+            elif where[0] in ('loop_start', 'loop_end'):
+                if where[1] >= len(lh):
+                    raise CutError(f'{relpath}: fn {key}: loop #{where[1]} not found (function has {len(lh)} loops)')
+                brace = lh[where[1]][1]
+                if where[0] == 'loop_start':
+                    inserts.append((brace + 1, txt))
+                else:
+                    inserts.append((match_close(code_mask(body), brace), txt))
+            else:
+                inserts.append((body.rfind('}'), txt))
         if tail_proof:
             inserts.append((body.rfind('}'), tail_proof.rstrip('\n') + '\n'))
         if head_proof:
